@@ -38,7 +38,9 @@ claim("C01",
       "state, fault oracle and stop point of the driver model: the IDs written into files that reached the disk are "
       "pairwise different, lie in 1..4294967294 (the counter never wraps; START_REFERENCE_ID is the translated "
       "constant), and are above every reference of every recognised statement when the lock is absent/disabled/"
-      "corrupt or ahead of the tree; C01_exhaustion_fails: exit 0 implies every statement lacking a reference got "
+      "corrupt or ahead of the tree -- for ANY u32 the lock may record, 0 included (the hypothesis 1 <= L the proof once "
+      "needed exposed a defect: a lock recording 0 wrote [ref: 0]; repaired, fix 4749d41); C01_exhaustion_fails: exit 0 "
+      "implies every statement lacking a reference got "
       "an ID. The model (Model/Driver.v) is tied to the code by running the real binary and the extracted model on "
       "the same small-scope and random trees (exact comparison of exit, files, lock, count) and the predicate is "
       "evaluated directly on the files the binary produced.",
